@@ -229,6 +229,12 @@ func (p *parser) finishParsingBodyAttribute(ident Token, singleLine bool) (Node,
         // landed somewhere weird. We'll try to reset to the start of a body
         // item so parsing can continue.
         endRange = p.PrevRange()
+        if exprRange := expr.Range(); exprRange.End.Byte > endRange.End.Byte {
+            // the partial expression (it may end in a placeholder for the
+            // offending token, which has not been consumed) stays inside
+            // the attribute's range
+            endRange = exprRange
+        }
         p.recoverAfterBodyItem()
     } else {
         endRange = p.PrevRange()
